@@ -5,6 +5,9 @@ import os, re
 from . import cast
 
 LIBC_ALLOC = {"malloc", "calloc", "realloc", "free", "strdup", "strndup", "alloca", "aligned_alloc", "posix_memalign", "reallocarray"}
+# AUDIT2: the compiler's spellings of the same functions and the other libc entry points that hand out / take back heap memory
+LIBC_ALLOC |= {"__builtin_" + f for f in ("malloc", "calloc", "realloc", "free", "strdup", "strndup", "alloca", "aligned_alloc", "alloca_with_align")}
+LIBC_ALLOC |= {"memalign", "valloc", "pvalloc", "cfree", "asprintf", "vasprintf", "getline", "getdelim", "open_memstream", "realpath", "mmap", "munmap", "sbrk", "brk"}
 ALLOC_PTRS = {"_cbor_malloc", "_cbor_realloc", "_cbor_free"}
 
 def walk(n, fn, ctx=None):
@@ -79,6 +82,7 @@ def max_value(n):
 def scan(cfg):
     globals_, assigns, allocsites, libc, notes = {}, set(), {}, set(), []
     fields, narrowing = {}, {}
+    arms = set()
     src_prefix = os.path.join(cast.REPO, "src") + "/"
     for src in cfg["srcs"]:
         rel = os.path.relpath(src, os.path.join(cast.REPO, "src"))
@@ -109,8 +113,11 @@ def scan(cfg):
                         return
                     key = (name, where if where.endswith(".c") else "header", ctx or "")
                     globals_[key] = ("const" in qual.split("*")[-1] or qual.startswith("const ")) and not qual.endswith("*") or (qual.startswith("const ") and "*" not in qual)
-            if k == "BinaryOperator" and n.get("opcode", "").endswith("=") and n.get("opcode") not in ("==", "!=", "<=", ">="):
+            if k in ("BinaryOperator", "CompoundAssignOperator") and n.get("opcode", "").endswith("=") and n.get("opcode") not in ("==", "!=", "<=", ">="):
                 lhs = cast.strip(n["inner"][0])
+                # AUDIT2: `callbacks.uint8 = f;` / `table[i] = v;` write the variable too (only `x = ..` was seen)
+                while lhs.get("kind") in ("MemberExpr", "ArraySubscriptExpr") and not lhs.get("isArrow") and lhs.get("inner"):
+                    lhs = cast.strip(lhs["inner"][0])
                 if lhs.get("kind") == "DeclRefExpr":
                     d = lhs.get("referencedDecl", {})
                     if d.get("kind") == "VarDecl":
@@ -149,12 +156,57 @@ def scan(cfg):
                     if infile.startswith(src_prefix) and infile.endswith(".c"):
                         key = (rel, ctx, frm, to)
                         narrowing[key] = narrowing.get(key, 0) + 1
+            if k == "CompoundAssignOperator" and ctx is not None:
+                # AUDIT2: `x op= e` computes in computeResultType and converts back to the type of x WITHOUT an ImplicitCastExpr
+                # node (`unsigned consumed; consumed += decode_result.read;` truncates a size_t and was listed nowhere)
+                tl = n.get("inner", [{}])[0].get("type", {})
+                to = int_bits(tl.get("desugaredQualType") or tl.get("qualType"))
+                tr = n.get("computeResultType", {})
+                frm = int_bits(tr.get("desugaredQualType") or tr.get("qualType"))
+                rhs = n.get("inner", [{}, {}])[1]
+                mv = max_value(rhs)
+                shrink = n.get("opcode") in (">>=", "/=", "%=", "&=")      # cannot exceed the old value of x
+                if to and frm and to < frm and not shrink and not (n.get("opcode") in ("|=", "^=") and mv is not None and mv < (1 << to)):
+                    infile = cur_file[0] or ""
+                    if infile.startswith(src_prefix) and infile.endswith(".c"):
+                        key = (rel, ctx, frm, to)
+                        narrowing[key] = narrowing.get(key, 0) + 1
+            if k == "MemberExpr" and ctx is not None and n.get("inner"):
+                # AUDIT2: which arm of union cbor_item_metadata each function reads or writes (the plan translator drops arm names)
+                bt = n["inner"][0].get("type", {})
+                bq = (bt.get("desugaredQualType") or bt.get("qualType") or "").replace("const ", "").strip()
+                if bq == "union cbor_item_metadata":
+                    infile = cur_file[0] or ""
+                    if infile.startswith(src_prefix) and infile.endswith(".c"):
+                        arms.add((rel, ctx, n.get("name")))
             if k == "DeclRefExpr":
                 nm = n.get("referencedDecl", {}).get("name")
                 if nm in LIBC_ALLOC and n.get("referencedDecl", {}).get("kind") == "FunctionDecl":
                     infile = cur_file[0] or ""
                     libc.add((rel, ctx or "<file scope>", nm))
         walk(tu, visit)
+    # AUDIT2: the translators read ONE preprocessor configuration (clang, the cmake definitions, neither NDEBUG nor DEBUG), the
+    # library is compiled by gcc with other definitions: code under `#ifdef NDEBUG` / `__clang__` / `__OPTIMIZE__` .. would be
+    # translated from one branch and compiled from the other.  Inventory of the macros the conditionals of src/ test.
+    ppmacros = set()
+    srcroot = os.path.join(cast.REPO, "src")
+    for dp, _, fns in os.walk(srcroot):
+        for fn_ in fns:
+            if not fn_.endswith((".c", ".h", ".h.in", ".inc")):
+                continue
+            try:
+                lines_ = open(os.path.join(dp, fn_), errors="replace").read().replace("\\\n", " ").split("\n")
+            except OSError:
+                continue
+            for i_, ln in enumerate(lines_):
+                m_ = re.match(r"\s*#\s*(if|ifdef|ifndef|elif)\b(.*)", ln)
+                if not m_:
+                    continue
+                ids = [x for x in re.findall(r"[A-Za-z_][A-Za-z_0-9]*", re.sub(r"/\*.*?\*/|//.*", "", m_.group(2))) if x != "defined"]
+                nxt = lines_[i_ + 1] if i_ + 1 < len(lines_) else ""
+                if m_.group(1) == "ifndef" and len(ids) == 1 and re.match(r"\s*#\s*define\s+%s\b" % re.escape(ids[0]), nxt):
+                    continue        # include guard
+                ppmacros.update(ids)
     # which globals are assigned, and where
     gl = []
     ids = {}
@@ -165,7 +217,8 @@ def scan(cfg):
             "allocsites": sorted((f, fn, p, c) for (f, fn, p), c in allocsites.items()),
             "libc": sorted(libc),
             "fields": sorted((st, f, b) for (st, f), b in fields.items()),
-            "narrowing": sorted((f, fn, a, b, c) for (f, fn, a, b), c in narrowing.items())}, notes
+            "narrowing": sorted((f, fn, a, b, c) for (f, fn, a, b), c in narrowing.items()),
+            "arms": sorted(arms), "ppmacros": sorted(ppmacros)}, notes
 
 def q(s):
     return '"%s"' % s
@@ -193,5 +246,11 @@ def emit(inv):
     lines.append("(* implicit integer conversions to a narrower type in the .c files: (file, function, from bits, to bits, count) *)")
     lines.append("Definition gen_narrowing : list (string * string * N * N * N) := [")
     lines.append(";\n".join("  (%s, %s, %d%%N, %d%%N, %d%%N)" % (q(f), q(fn), a, b, c) for (f, fn, a, b, c) in inv.get("narrowing", [])))
+    lines.append("].")
+    lines.append("(* AUDIT2: macros tested by the preprocessor conditionals of src/ (include guards excluded) *)")
+    lines.append("Definition gen_pp_macros : list string := [%s]." % "; ".join(q(m) for m in inv.get("ppmacros", [])))
+    lines.append("(* AUDIT2: arms of union cbor_item_metadata accessed in the .c files: (file, function, arm) *)")
+    lines.append("Definition gen_union_arms : list (string * string * string) := [")
+    lines.append(";\n".join("  (%s, %s, %s)" % (q(f), q(fn), q(a)) for (f, fn, a) in inv.get("arms", [])))
     lines.append("].")
     return "\n".join(lines) + "\n"
